@@ -127,6 +127,13 @@ Perms(S) == {f \in [1..Cardinality(S) -> S] : \A i, j \in 1..Cardinality(S) : f[
 DoReorder(target) == /\ "reorder" \in Actions
                      /\ m' = SortToOrder(m, target) /\ UNCHANGED h
                      /\ last' = <<"reorder", target>>
+DoPairs(x, y) == /\ "pairs" \in Actions /\ x # y
+                 /\ m' = ReorderToPairs(m, <<<<x, y>>>>) /\ UNCHANGED h
+                 /\ last' = <<"pairs", x, y>>
+DoCube(k, x, bx, y, by) ==
+  /\ "cube" \in Actions /\ x # y
+  /\ Put(k, CubeOp(m, <<<<LevelOf(m, x), bx>>, <<LevelOf(m, y), by>>>>, 1))
+  /\ last' = <<"cube", k, x, bx, y, by>>
 DoSift(visit) == /\ "sift" \in Actions
                  /\ m' = Sift(m, visit) /\ UNCHANGED h
                  /\ last' = <<"sift", visit>>
@@ -154,6 +161,8 @@ Next ==
   \/ \E k \in Slots : DoDropGC(k)
   \/ \E x \in 0..(NLv - 2) : DoSwap(x)
   \/ \E p \in Perms(Declared(m)) : DoReorder(p) \/ DoSift(p)
+  \/ \E x, y \in Declared(m) : DoPairs(x, y)
+  \/ \E k \in Slots, x, y \in Declared(m), bx, by \in BOOLEAN : DoCube(k, x, bx, y, by)
   \/ \E nm \in Names : DoAddVar(nm)
   \/ \E gone \in SUBSET Declared(m) : DoUndeclare(gone)
 Spec == Init /\ [][Next]_vars
@@ -197,6 +206,8 @@ StepOK ==
     [] a[1] = "swap" -> SwapC(m, m', a[2], a[3])
     [] a[1] = "reorder" -> ReorderToC(m', a[2])
     [] a[1] = "sift" -> SiftC(CollectAll(m), m')
+    [] a[1] = "pairs" -> PairsC(m', <<a[2]>>, <<a[3]>>) /\ Declared(m') = Declared(m)
+    [] a[1] = "cube" -> CubeC(m, m', <<a[3], a[5]>>, <<a[4], a[6]>>, NewRef)
     [] a[1] = "add_var" -> AddVarC(m, m', a[2], -1, Len(m.order))
     [] a[1] = "undeclare" -> UndeclareC(m, m', a[2], a[2])
     [] OTHER -> FALSE
